@@ -45,7 +45,7 @@ _CHAIN_RULE = ("each run = one seeded session over a population of Mps/MpDm/Mpo 
                "direction, dtype) tuples")
 _CHAIN_SEAMS = ["SimRNG (global numpy stream reseeded per step)", "SimGC (gc disabled; drop/collect are scheduled steps)",
                 "gauge schedule (canonicalise/ensure/move_qnidx/compress by 'another holder' between arithmetic steps)"]
-for _pid, _ref in (("C03", "4/C03"), ("C04", "4/C04"), ("C05", "4/C05"), ("C06", "4/C06"), ("C13", "4/C13")):
+for _pid, _ref in (("C03", "4/C03"), ("C04", "4/C04"), ("C05", "4/C05"), ("C06", "4/C06"), ("C07", "4/C07"), ("C13", "4/C13")):
     register(_pid, f"simlab.profiles.{_pid.lower()}", "exploration",
              budgets={"quick": dict(runs=640, timeout=120), "thorough": dict(runs=20000, timeout=300)},
              rule=_CHAIN_RULE, assumptions=COMMON_ASSUMPTIONS, seams=_CHAIN_SEAMS, design_ref=_ref)
